@@ -29,6 +29,10 @@ func TestMain(m *testing.M) {
 			"oracle: the parser accepts the text and builds exactly the intended tree (canonical dump), and for normal and compact mode format(parse(t)) is accepted again and " +
 			"parses to the same dump (comments dropped for compact); also parse(Function.Inspect()) == the function literal's tree. Enumerated completely: every (operand position x operand construct) " +
 			"pair of the grammar (62 contexts x 56 child templates) and every ordered pair of 36 statement shapes at top level and inside a block. Plus rapid-generated programs of depth <= 4 with comments. " +
+			"Trees whose only listed class is K-C02-2 (a statement starting with a unary sign after another statement, a normal-mode finding) are checked in compact mode only, and through Function.Inspect: " +
+			"generated blocks where such a statement follows a statement ending with a closing brace (if/else, for, func, lambda, macro, map literals, bound or returned), any other statement, or comments, at every nesting level, " +
+			"plus every statement shape followed by every sign-leading one (directly, after a line comment, after a block comment; top level, function block, else block). " +
+			"Function.Inspect is also checked over parameter lists: 0..4 named parameters with and without the trailing variadic marker '..' in the four written forms (func name, func, => block, => expression), enumerated and generated. " +
 			"Non-trivial: accepted program with a nested operator pair or >= 2 statements in a row; enumeration distinct by construction, generated programs by text.",
 		Assumptions: []string{
 			"texts with a comment in operand position (a = /* c */ 1) are skipped and counted: 'the tree without comments' is undefined for them",
@@ -380,6 +384,10 @@ func oracle(kind string, raw json.RawMessage) error {
 	}
 	var c Case
 	if err := json.Unmarshal(raw, &c); err != nil {
+		return err
+	}
+	if kind == "compact" { // a tree of the K-C02-2 class: only the compact-mode half holds (compactsign_test.go)
+		_, err := checkCompact(c)
 		return err
 	}
 	_, err := check(c)
